@@ -190,10 +190,7 @@ func (ws *GetRight) Get(ctx context.Context, proxy string,
 		}
 	}
 
-	reader := io.Reader(r.Body)
-	if l > length {
-		reader = io.LimitReader(reader, length)
-	}
+	reader := io.LimitReader(r.Body, length)
 
 	n, err := io.Copy(w, reader)
 	ws.Accumulate(int(n))
